@@ -1190,24 +1190,6 @@ Proof.
       apply in_map_iff. eauto.
 Qed.
 
-Lemma prod_rel_in model sets d : prod_rel model sets d ->
-  forall y w, In (y, w) d <->
-    In (y, w) model \/ exists vals v, In (y, vals) sets /\ w = VZ v /\ In (y, VZ v) d /\ In v vals.
-Proof.
-  induction 1 as [|x vals r m v Hr IH Hv]; intros y w.
-  - split; [auto|]. intros [H|(vals & v & [] & _)]; auto.
-  - rewrite in_app_iff, IH. cbn [In]. split.
-    + intros [[H|(vals' & v' & H1 & H2 & H3 & H4)]|[E|[]]].
-      * auto.
-      * right. exists vals', v'. repeat split; auto. apply in_app_iff; auto.
-      * inversion E; subst. right. exists vals, v. repeat split; auto.
-        apply in_app_iff. right. left. auto.
-    + intros [H|(vals' & v' & [E|H1] & H2 & H3 & H4)].
-      * auto.
-      * inversion E; subst. apply in_app_iff in H3. destruct H3 as [H3|[E3|[]]].
-        -- left. right. exists vals', v'. repeat split; auto.
-Abort.
-
 Lemma prod_rel_extends model sets f :
   (exists d, prod_rel model sets d /\ extends f d) <->
   extends f model /\ forall x vals, In (x, vals) sets -> exists v, In v vals /\ f x = VZ v.
@@ -1217,10 +1199,10 @@ Proof.
     + intros (d & H & He). inversion H; subst. split; auto. intros ? ? [].
     + intros [He _]. exists model. split; auto. constructor.
   - split.
-    + intros (d & H & He). inversion H; subst.
+    + intros (d & H & He). inversion H as [|? ? ? m v Hrel Hv]; subst.
       assert (He' : extends f m).
       { intros y w Hin. apply He. apply in_app_iff. auto. }
-      destruct (proj1 IH (ex_intro _ m (conj H3 He'))) as [Hm Hr].
+      destruct (proj1 IH (ex_intro _ m (conj Hrel He'))) as [Hm Hr].
       split; auto. intros y vals' [E|Hin].
       * inversion E; subst. exists v. split; auto. apply He.
         apply in_app_iff. right. left. auto.
@@ -1241,7 +1223,7 @@ Lemma prod_rel_unique model sets f d1 d2 :
 Proof.
   intro H1. revert d2. induction H1 as [|x vals r m v Hr IH Hv]; intros d2 H2 E1 E2.
   - inversion H2. reflexivity.
-  - inversion H2; subst.
+  - inversion H2 as [|? ? ? m0 v0 Hrel0 Hv0]; subst.
     assert (f x = VZ v) by (apply E1; apply in_app_iff; right; left; auto).
     assert (f x = VZ v0) by (apply E2; apply in_app_iff; right; left; auto).
     assert (v = v0) by congruence. subst v0. f_equal.
@@ -1287,4 +1269,737 @@ Proof.
     + destruct (IH y w Hin) as [H|(vals' & v' & H1 & H2 & H3)]; auto.
       right. exists vals', v'. cbn. auto.
     + inversion E; subst. right. exists vals, v. cbn. auto.
+Qed.
+
+(* ---- the integer sets of one cube ------------------------------------------------------------ *)
+Definition sign_tail (h : hint) : list bool :=
+  if h_signed h then [] else [if fst (h_dom h) >=? 0 then false else true].
+
+Lemma append_sign_tail {A} (g : bool -> A) bits h : wf_hint h ->
+  List.length bits = wnat h ->
+  append_sign_bit (g false) (g true) bits h = Some (bits ++ map g (sign_tail h)).
+Proof.
+  intros Hwf Hlen. unfold sign_tail. destruct (h_signed h) eqn:Hs.
+  - rewrite append_sign_bit_signed; auto.
+    + cbn. rewrite app_nil_r. reflexivity.
+    + destruct Hwf as (_ & H2 & _). specialize (H2 Hs). unfold wnat in Hlen. lia.
+  - rewrite append_sign_bit_unsigned by auto. cbn [map].
+    destruct (fst (h_dom h) >=? 0); reflexivity.
+Qed.
+
+Definition pbits (c : cube) (x : ident) (h : hint) : list (option bool) :=
+  map (fun b => dict_get bit_eqb b c) (bitnames x (DInt h)).
+
+Definition touched (c : cube) (x : ident) (h : hint) : bool :=
+  existsb (fun b => mem bit_eqb b (map fst c)) (bitnames x (DInt h)).
+
+Definition int_sets_spec (t' : tbl) (c : cube) : list (ident * list Z) :=
+  flat_map (fun xd =>
+    match snd xd with
+    | DInt h =>
+      if touched c (fst xd) h
+      then [(fst xd, enumerate_int (pbits c (fst xd) h ++ map Some (sign_tail h)))]
+      else []
+    | DBool => []
+    end) t'.
+
+Lemma int_sets_eq t' c : (forall x h, In (x, DInt h) t' -> wf_hint h) ->
+  int_sets t' c = Some (int_sets_spec t' c).
+Proof.
+  induction t' as [|[x d] r IH]; intro Hwf; [reflexivity|].
+  assert (IH' : int_sets r c = Some (int_sets_spec r c))
+    by (apply IH; intros; eapply Hwf; right; eauto).
+  cbn [int_sets int_sets_spec flat_map fst snd]. destruct d as [|h]; auto.
+  fold (touched c x h). destruct (touched c x h); cbn [negb app]; auto.
+  fold (pbits c x h).
+  rewrite (append_sign_tail Some); [| eapply Hwf; left; eauto |].
+  - rewrite IH'. reflexivity.
+  - unfold pbits. cbn [bitnames]. rewrite !map_length, seq_length. reflexivity.
+Qed.
+
+Lemma int_sets_spec_in t' c x vals :
+  In (x, vals) (int_sets_spec t' c) <->
+  exists h, In (x, DInt h) t' /\ touched c x h = true /\
+            vals = enumerate_int (pbits c x h ++ map Some (sign_tail h)).
+Proof.
+  unfold int_sets_spec. rewrite in_flat_map. split.
+  - intros ([y d] & Hin & H). cbn [fst snd] in H. destruct d as [|h]; [destruct H|].
+    destruct (touched c y h) eqn:Et; [|destruct H].
+    destruct H as [E|[]]. inversion E; subst. eauto.
+  - intros (h & Hin & Et & ->). exists (x, DInt h). split; auto.
+    cbn [fst snd]. rewrite Et. left; auto.
+Qed.
+
+Definition cube_agrees_int (c : cube) (x : ident) (h : hint) (z : Z) : Prop :=
+  forall i bv, (i < wnat h)%nat -> dict_get bit_eqb (x, i) c = Some bv ->
+               Z.testbit z (Z.of_nat i) = bv.
+
+Lemma Forall2_nth_iff {A B} (R : A -> B -> Prop) l l' da db :
+  Forall2 R l l' <->
+  List.length l = List.length l' /\
+  forall i, (i < List.length l)%nat -> R (nth i l da) (nth i l' db).
+Proof.
+  split.
+  - induction 1; cbn; [split; auto; intros; lia|].
+    destruct IHForall2 as [El Hn]. split; [lia|].
+    intros [|i] Hi; auto. apply Hn. lia.
+  - revert l'; induction l as [|a l IH]; intros [|b l'] [El Hn]; cbn in El; try lia.
+    + constructor.
+    + constructor; [apply (Hn 0%nat); cbn; lia|].
+      apply IH. split; [lia|]. intros i Hi. apply (Hn (S i)). cbn; lia.
+Qed.
+
+Lemma enumerate_cube c x h z : wf_hint h -> in_limits h z = true ->
+  (In z (enumerate_int (pbits c x h ++ map Some (sign_tail h))) <->
+   cube_agrees_int c x h z).
+Proof.
+  intros Hwf Hin.
+  set (spb := pbits c x h ++ map Some (sign_tail h)).
+  set (l0 := encode_val h z ++ sign_tail h).
+  assert (Hlp : List.length (pbits c x h) = wnat h)
+    by (unfold pbits; cbn [bitnames]; rewrite !map_length, seq_length; reflexivity).
+  assert (Hw1 : (1 <= wnat h)%nat) by (destruct Hwf as [H1 _]; unfold wnat; lia).
+  assert (Hne : spb <> []).
+  { unfold spb. destruct (pbits c x h); cbn in *; [lia|discriminate]. }
+  assert (Hl0 : sval l0 = z).
+  { pose proof (decode_encode h z Hwf Hin) as D. unfold decode_val in D.
+    rewrite (append_sign_tail (fun b => b)) in D by (auto; apply encode_val_length).
+    rewrite map_id in D. inversion D. reflexivity. }
+  assert (Hlen0 : List.length l0 = List.length spb).
+  { unfold l0, spb. rewrite !app_length, map_length, encode_val_length, Hlp. reflexivity. }
+  assert (Hnth : forall i, (i < wnat h)%nat ->
+            nth i spb None = dict_get bit_eqb (x, i) c /\
+            nth i l0 false = Z.testbit z (Z.of_nat i)).
+  { intros i Hi. split.
+    - unfold spb. rewrite app_nth1 by lia. unfold pbits. cbn [bitnames].
+      rewrite map_map. apply (nth_map_seq (fun j => dict_get bit_eqb (x, j) c)). auto.
+    - unfold l0. rewrite app_nth1 by (rewrite encode_val_length; auto).
+      apply zbits_nth. auto. }
+  destruct (enumerate_int_spec spb Hne) as [Hspec _]. rewrite Hspec. split.
+  - intros (l & Hag & Hv) i bv Hi Hd.
+    assert (l = l0).
+    { apply sval_inj.
+      - apply agrees_length in Hag. destruct l, spb; cbn in *; congruence.
+      - apply agrees_length in Hag. congruence.
+      - congruence. }
+    subst l. unfold agrees in Hag.
+    apply (Forall2_nth_iff _ _ _ None false) in Hag. destruct Hag as [_ Hag].
+    specialize (Hag i). destruct (Hnth i Hi) as [E1 E2]. rewrite E1, E2 in Hag.
+    destruct Hag as [Hn|Hs].
+    + unfold spb. rewrite app_length, Hlp. lia.
+    + congruence.
+    + congruence.
+  - intro Hag. exists l0. split; auto. unfold agrees.
+    apply (Forall2_nth_iff _ _ _ None false). split; [congruence|].
+    intros i Hi. destruct (Nat.lt_ge_cases i (wnat h)) as [Hlt|Hge].
+    + destruct (Hnth i Hlt) as [E1 E2]. rewrite E1, E2.
+      destruct (dict_get bit_eqb (x, i) c) as [bv|] eqn:Ed; auto.
+      right. f_equal. symmetry. apply (Hag i bv); auto.
+    + unfold spb, l0. rewrite !app_nth2 by (rewrite ?Hlp, ?encode_val_length; lia).
+      rewrite Hlp, encode_val_length.
+      unfold spb in Hi. rewrite app_length, Hlp, map_length in Hi.
+      rewrite (nth_indep _ None (Some false)) by (rewrite map_length; lia).
+      rewrite map_nth. right. reflexivity.
+Qed.
+
+(* ---- when does the refinement of f satisfy a cube ---------------------------------------------- *)
+Definition cube_ok (univ : list bit) (c : cube) : Prop :=
+  NoDup (map fst c) /\ forall b, In b (map fst c) -> In b univ.
+
+Lemma cube_holds_iff c a :
+  cube_holds c a = true <-> forall b bv, In (b, bv) c -> a b = bv.
+Proof.
+  unfold cube_holds. rewrite forallb_forall. split.
+  - intros H b bv Hin. specialize (H _ Hin). cbn [fst snd] in H. apply eqb_prop; auto.
+  - intros H [b bv] Hin. cbn [fst snd]. rewrite (H b bv Hin). apply eqb_reflx.
+Qed.
+
+Lemma cube_holds_spec t c f : wf_tbl t -> cube_ok (all_bits t) c -> in_range t f ->
+  (cube_holds c (encode t f) = true <->
+   (forall x bv, In (x, DBool) t -> dict_get bit_eqb (x, 0%nat) c = Some bv -> f x = VB bv) /\
+   (forall x h z, In (x, DInt h) t -> f x = VZ z -> cube_agrees_int c x h z)).
+Proof.
+  intros Hwf [NDc Hkeys] Hf. pose proof Hwf as [ND _]. rewrite cube_holds_iff. split.
+  - intro H. split.
+    + intros x bv Hin Hd. apply (dict_get_in bit_eqb bit_eqb_spec) in Hd.
+      specialize (H _ _ Hd). unfold encode in H. cbn [fst snd] in H.
+      rewrite (in_tlookup t x DBool ND Hin) in H.
+      pose proof (Hf x DBool Hin) as Hr. destruct (f x); cbn in Hr; [congruence|discriminate].
+    + intros x h z Hin Hfx i bv Hi Hd. apply (dict_get_in bit_eqb bit_eqb_spec) in Hd.
+      specialize (H _ _ Hd). unfold encode in H. cbn [fst snd] in H.
+      rewrite (in_tlookup t x (DInt h) ND Hin), Hfx in H. exact H.
+  - intros [Hb Hi] b bv Hin.
+    assert (Hd : dict_get bit_eqb b c = Some bv)
+      by (apply (dict_get_nodup_in bit_eqb bit_eqb_spec); auto).
+    assert (Hdecl : In b (all_bits t)).
+    { apply Hkeys. apply in_map_iff. exists (b, bv). auto. }
+    destruct (declared_bit_lookup t b Hwf Hdecl) as (d & Hl & Hbn).
+    apply in_bitnames in Hbn. destruct Hbn as [_ Hidx]. destruct b as [x i].
+    cbn [fst snd] in *. unfold encode. cbn [fst snd]. rewrite Hl.
+    pose proof (Hf x d (tlookup_in _ _ _ Hl)) as Hr. destruct d as [|h].
+    + subst i. rewrite (Hb x bv (tlookup_in _ _ _ Hl) Hd). reflexivity.
+    + destruct (f x) as [|z] eqn:Efx; cbn in Hr; [discriminate|].
+      apply (Hi x h z (tlookup_in _ _ _ Hl) Efx i bv Hidx Hd).
+Qed.
+
+Lemma bool_model_in t c y w :
+  In (y, w) (bool_model t c) <->
+  exists bv, In (y, DBool) t /\ dict_get bit_eqb (y, 0%nat) c = Some bv /\ w = VB bv.
+Proof.
+  unfold bool_model. rewrite in_flat_map. split.
+  - intros ([x d] & Hin & H). cbn [fst snd] in H. destruct d; [|destruct H].
+    destruct (dict_get bit_eqb (x, 0%nat) c) as [bv|] eqn:Ed; [|destruct H].
+    destruct H as [E|[]]. inversion E; subst. eauto.
+  - intros (bv & Hin & Hd & ->). exists (y, DBool). split; auto.
+    cbn [fst snd]. rewrite Hd. left; auto.
+Qed.
+
+Lemma and_iff_both (A A' B B' : Prop) :
+  (A <-> A') -> (B <-> B') -> (A /\ B <-> A' /\ B').
+Proof. tauto. Qed.
+
+(* what one cube yields *)
+Theorem bitfields_spec t c : wf_tbl t -> cube_ok (all_bits t) c ->
+  exists L, bitfields_to_int_iter t c = Some L /\ NoDup L /\
+    (forall f, in_range t f ->
+       ((exists d, In d L /\ extends f d) <-> cube_holds c (encode t f) = true)) /\
+    (forall f d1 d2, In d1 L -> In d2 L -> extends f d1 -> extends f d2 -> d1 = d2).
+Proof.
+  intros Hwf Hc. pose proof Hwf as [ND Hwfh]. pose proof Hc as [NDc Hkeys].
+  exists (take_product (int_sets_spec t c) (bool_model t c)).
+  split; [|split; [|split]].
+  - unfold bitfields_to_int_iter.
+    assert (Hs : subset bit_eqb (map fst c) (all_bits t) = true)
+      by (apply (subset_spec bit_eqb bit_eqb_spec); auto).
+    rewrite Hs. cbn [negb]. rewrite int_sets_eq by auto. reflexivity.
+  - apply take_product_nodup. intros x vals Hin.
+    apply int_sets_spec_in in Hin. destruct Hin as (h & Hin & _ & ->).
+    apply enumerate_int_spec.
+    destruct (pbits c x h) eqn:Ep; [|discriminate].
+    assert (Hl : List.length (pbits c x h) = wnat h)
+      by (unfold pbits; cbn [bitnames]; rewrite !map_length, seq_length; reflexivity).
+    rewrite Ep in Hl. cbn in Hl. destruct (Hwfh x h Hin) as [H1 _]. unfold wnat in Hl. lia.
+  - intros f Hf.
+    rewrite (cube_holds_spec t c f Hwf Hc Hf).
+    transitivity (exists d, prod_rel (bool_model t c) (int_sets_spec t c) d /\ extends f d).
+    { split; intros (d & H1 & H2); exists d; split; auto; apply take_product_rel; auto. }
+    rewrite prod_rel_extends. apply and_iff_both.
+    + split.
+      * intros He x bv Hin Hd. apply He. apply bool_model_in. eauto.
+      * intros H y w Hin. apply bool_model_in in Hin. destruct Hin as (bv & H1 & H2 & ->).
+        eauto.
+    + split.
+      * intros H x h z Hin Hfx.
+        pose proof (Hf x (DInt h) Hin) as Hr. rewrite Hfx in Hr. cbn in Hr.
+        destruct (touched c x h) eqn:Et.
+        -- destruct (H x _ (proj2 (int_sets_spec_in t c x _)
+                               (ex_intro _ h (conj Hin (conj Et eq_refl)))))
+             as (v & Hv & Hfv).
+           assert (v = z) by congruence. subst v.
+           apply (enumerate_cube c x h z); auto. eapply Hwfh; eauto.
+        -- intros i bv Hi Hd. exfalso.
+           assert (touched c x h = true); [|congruence].
+           unfold touched. apply existsb_exists. exists (x, i). split.
+           ++ apply in_bitnames. cbn. auto.
+           ++ apply (mem_spec bit_eqb bit_eqb_spec).
+              apply (dict_get_in bit_eqb bit_eqb_spec) in Hd.
+              apply in_map_iff. exists ((x, i), bv). auto.
+      * intros H x vals Hin. apply int_sets_spec_in in Hin.
+        destruct Hin as (h & Hin & Et & ->).
+        pose proof (Hf x (DInt h) Hin) as Hr.
+        destruct (f x) as [|z] eqn:Efx; cbn in Hr; [discriminate|].
+        exists z. split; auto.
+        apply (enumerate_cube c x h z); auto. eapply Hwfh; eauto.
+  - intros f d1 d2 H1 H2. apply take_product_rel in H1. apply take_product_rel in H2.
+    eapply prod_rel_unique; eauto.
+Qed.
+
+(* ---- the yielded dictionaries are functional and hold representable values ------------------ *)
+Lemma flat_map_keys_nodup {B} (g : ident * vdecl -> list (ident * B)) (t : tbl) :
+  NoDup (map fst t) ->
+  (forall xd, g xd = [] \/ exists w, g xd = [(fst xd, w)]) ->
+  NoDup (map fst (flat_map g t)) /\
+  forall y, In y (map fst (flat_map g t)) -> In y (map fst t).
+Proof.
+  intros ND Hg. induction t as [|xd r IH]; cbn [flat_map map].
+  - split; [constructor|auto].
+  - inversion ND; subst. destruct (IH H2) as [IH1 IH2].
+    destruct (Hg xd) as [E|[w E]]; rewrite E; cbn [app map fst].
+    + split; auto. intros y Hy. right. auto.
+    + split.
+      * constructor; auto.
+      * intros y [<-|Hy]; [left; auto|right; auto].
+Qed.
+
+Lemma sets_values_in_limits c x h v : wf_hint h ->
+  In v (enumerate_int (pbits c x h ++ map Some (sign_tail h))) -> in_limits h v = true.
+Proof.
+  intros Hwf Hin.
+  assert (Hlp : List.length (pbits c x h) = wnat h)
+    by (unfold pbits; cbn [bitnames]; rewrite !map_length, seq_length; reflexivity).
+  assert (Hne : pbits c x h ++ map Some (sign_tail h) <> []).
+  { destruct (pbits c x h); cbn in *; [|discriminate].
+    destruct Hwf as [H1 _]. unfold wnat in Hlp. lia. }
+  destruct (enumerate_int_spec _ Hne) as [Hspec _]. apply Hspec in Hin.
+  destruct Hin as (l & Hag & Hv). unfold agrees in Hag.
+  apply Forall2_app_inv_l in Hag. destruct Hag as (l1 & l2 & H1 & H2 & ->).
+  assert (l2 = sign_tail h).
+  { clear - H2. revert l2 H2. induction (sign_tail h) as [|b tl IH]; intros l2 H2;
+      inversion H2; subst; auto.
+    f_equal; auto. destruct H1 as [?|E]; [discriminate|]. inversion E; auto. }
+  subst l2.
+  assert (Hl1 : List.length l1 = wnat h).
+  { rewrite <- Hlp. symmetry. clear - H1. induction H1; cbn; auto. }
+  destruct (decode_in_limits h l1 Hwf Hl1) as (z & D & I & _).
+  unfold decode_val in D.
+  rewrite (append_sign_tail (fun b => b)) in D by auto. rewrite map_id in D.
+  inversion D. congruence.
+Qed.
+
+Lemma yielded_dict_ok t c d : wf_tbl t ->
+  In d (take_product (int_sets_spec t c) (bool_model t c)) ->
+  NoDup (map fst d) /\
+  (forall y w, In (y, w) d -> exists dy, In (y, dy) t /\ val_in_range dy w = true) /\
+  (forall y, In y (map fst d) -> exists b, In b (map fst c) /\ fst b = y).
+Proof.
+  intros [ND Hwfh] Hin. apply take_product_rel in Hin.
+  assert (Hm : NoDup (map fst (bool_model t c)) /\
+               forall y, In y (map fst (bool_model t c)) -> In y (map fst t)).
+  { apply flat_map_keys_nodup; auto. intros [x dx]. cbn [fst snd].
+    destruct dx; auto. destruct (dict_get bit_eqb (x, 0%nat) c); eauto. }
+  assert (Hs : NoDup (map fst (int_sets_spec t c)) /\
+               forall y, In y (map fst (int_sets_spec t c)) -> In y (map fst t)).
+  { apply flat_map_keys_nodup; auto. intros [x dx]. cbn [fst snd].
+    destruct dx as [|h]; auto. destruct (touched c x h); eauto. }
+  assert (Hdisj : forall y, In y (map fst (bool_model t c)) ->
+                            ~ In y (map fst (int_sets_spec t c))).
+  { intros y H1 H2. apply in_map_iff in H1. destruct H1 as ([y1 w1] & <- & H1).
+    apply in_map_iff in H2. destruct H2 as ([y2 w2] & E & H2). cbn [fst] in *. subst y2.
+    apply bool_model_in in H1. destruct H1 as (bv & Hb & _).
+    apply int_sets_spec_in in H2. destruct H2 as (h & Hi & _).
+    pose proof (in_tlookup t y1 _ ND Hb). pose proof (in_tlookup t y1 _ ND Hi). congruence. }
+  split; [|split].
+  - destruct Hm as [Hm _]. destruct Hs as [Hs _].
+    revert Hs Hdisj. induction Hin as [|x vals r m v Hr IH Hv]; intros Hs Hdisj; auto.
+    cbn [map fst] in Hs. inversion Hs; subst.
+    rewrite map_app. cbn [map fst]. apply nodup_snoc.
+    + apply IH; auto. intros y Hy Hy'. apply (Hdisj y Hy). right. auto.
+    + rewrite (prod_rel_keys _ _ _ Hr). intros [Hx|Hx]; auto.
+      apply (Hdisj x Hx). left. auto.
+  - intros y w Hyw. destruct (prod_rel_vals _ _ _ Hin y w Hyw)
+      as [H|(vals & v & H1 & -> & H3)].
+    + apply bool_model_in in H. destruct H as (bv & Hb & _ & ->). exists DBool. auto.
+    + apply int_sets_spec_in in H1. destruct H1 as (h & Hi & _ & ->).
+      exists (DInt h). split; auto. cbn.
+      eapply sets_values_in_limits; eauto.
+  - intros y Hy. apply (prod_rel_keys _ _ _ Hin) in Hy. destruct Hy as [Hy|Hy].
+    + apply in_map_iff in Hy. destruct Hy as ([y1 w1] & <- & H1).
+      apply bool_model_in in H1. destruct H1 as (bv & _ & Hd & _).
+      apply (dict_get_in bit_eqb bit_eqb_spec) in Hd.
+      exists (y1, 0%nat). split; auto. apply in_map_iff. exists ((y1, 0%nat), bv). auto.
+    + apply in_map_iff in Hy. destruct Hy as ([y1 w1] & <- & H1).
+      apply int_sets_spec_in in H1. destruct H1 as (h & _ & Et & _).
+      unfold touched in Et. apply existsb_exists in Et. destruct Et as (b & Hb & Hm').
+      apply (mem_spec bit_eqb bit_eqb_spec) in Hm'. apply in_bitnames in Hb.
+      exists b. cbn [fst]. tauto.
+Qed.
+
+Lemma extension_exists t d : wf_tbl t -> NoDup (map fst d) ->
+  (forall y w, In (y, w) d -> exists dy, In (y, dy) t /\ val_in_range dy w = true) ->
+  exists f, in_range t f /\ extends f d.
+Proof.
+  intros Hwf NDd Hv.
+  exists (fun x => match dict_get String.eqb x d with
+                   | Some v => v
+                   | None => decode t zero_asg x
+                   end).
+  split.
+  - intros x dx Hin. destruct (dict_get String.eqb x d) as [v|] eqn:E.
+    + apply (dict_get_in String.eqb string_eqb_spec') in E.
+      destruct (Hv x v E) as (dy & Hy & Hr). destruct Hwf as [ND _].
+      pose proof (in_tlookup t x _ ND Hin). pose proof (in_tlookup t x _ ND Hy).
+      congruence.
+    + apply decode_in_range; auto.
+  - intros x v Hin.
+    rewrite (dict_get_nodup_in String.eqb string_eqb_spec' x v d NDd Hin). reflexivity.
+Qed.
+
+(* ---- the contract of dd.pick_iter, as propositions ---------------------------------------------- *)
+Lemma nodup_keys_spec {V} (d : list (bit * V)) :
+  nodup_keys bit_eqb d = true <-> NoDup (map fst d).
+Proof.
+  induction d as [|[k v] r IH]; cbn [nodup_keys map fst].
+  - split; [constructor|auto].
+  - rewrite andb_true_iff, negb_true_iff, IH. split.
+    + intros [H1 H2]. constructor; auto.
+      rewrite <- (mem_spec bit_eqb bit_eqb_spec). congruence.
+    + intro H. inversion H; subst. split; auto.
+      apply not_true_is_false. rewrite (mem_spec bit_eqb bit_eqb_spec). auto.
+Qed.
+
+Lemma cubes_conflict_spec c1 c2 a :
+  cubes_conflict c1 c2 = true -> cube_holds c1 a = true -> cube_holds c2 a = true -> False.
+Proof.
+  unfold cubes_conflict. intros H H1 H2. apply existsb_exists in H.
+  destruct H as ([b bv] & Hin & H). cbn [fst snd] in H.
+  destruct (dict_get bit_eqb b c2) as [v|] eqn:E; [|discriminate].
+  apply (dict_get_in bit_eqb bit_eqb_spec) in E.
+  rewrite cube_holds_iff in H1, H2.
+  rewrite <- (H1 _ _ Hin), <- (H2 _ _ E) in H. rewrite eqb_reflx in H. discriminate.
+Qed.
+
+Lemma cube_holds_agree univ c a a' :
+  (forall b, In b (map fst c) -> In b univ) -> agree univ a a' ->
+  cube_holds c a = cube_holds c a'.
+Proof.
+  intros Hk Ha. unfold cube_holds. apply forallb_ext_in'.
+  intros [b bv] Hin. cbn [fst snd]. rewrite (Ha b); auto.
+  apply Hk. apply in_map_iff. exists (b, bv). auto.
+Qed.
+
+Record contract (univ : list bit) (u : pred) (care : option (list bit))
+    (cubes : list cube) : Prop := {
+  ct_disjoint : ForallOrdPairs (fun c1 c2 => cubes_conflict c1 c2 = true) cubes;
+  ct_cover : forall a, u a = existsb (fun c => cube_holds c a) cubes;
+  ct_ok : forall c, In c cubes -> cube_ok univ c;
+  ct_care : forall c b, In c cubes ->
+      In b (match care with Some l => l | None => bsupport univ u end) ->
+      In b (map fst c);
+  ct_keys : forall c b, In c cubes -> In b (map fst c) ->
+      In b (bsupport univ u) \/
+      In b (match care with Some l => l | None => bsupport univ u end)
+}.
+
+Lemma pairwise_spec {A} (r : A -> A -> bool) l :
+  pairwise r l = true <-> ForallOrdPairs (fun x y => r x y = true) l.
+Proof.
+  induction l as [|x l IH]; cbn [pairwise].
+  - split; [constructor|auto].
+  - rewrite andb_true_iff, forallb_forall, IH. split.
+    + intros [H1 H2]. constructor; auto. apply Forall_forall. auto.
+    + intro H. inversion H; subst. split; auto. apply Forall_forall. auto.
+Qed.
+
+Theorem contract_of_bool univ u care cubes : uses_only univ u ->
+  cube_contract_b univ u care cubes = true -> contract univ u care cubes.
+Proof.
+  intros Hu H. unfold cube_contract_b in H.
+  set (cb := match care with Some l => l | None => bsupport univ u end) in *.
+  apply andb_true_iff in H. destruct H as [H H3].
+  apply andb_true_iff in H. destruct H as [H1 H2].
+  rewrite forallb_forall in H3.
+  assert (Hc : forall c, In c cubes ->
+     NoDup (map fst c) /\ (forall b, In b cb -> In b (map fst c)) /\
+     (forall b, In b (map fst c) -> In b univ) /\
+     (forall b, In b (map fst c) -> In b (bsupport univ u) \/ In b cb)).
+  { intros c Hin. specialize (H3 c Hin).
+    repeat (apply andb_true_iff in H3; destruct H3 as [H3 ?]).
+    apply nodup_keys_spec in H3.
+    rewrite (subset_spec bit_eqb bit_eqb_spec) in H, H0, H4.
+    repeat split; auto. intros b Hb. specialize (H b Hb).
+    apply (set_union_in bit_eqb bit_eqb_spec) in H. auto. }
+  constructor.
+  - apply pairwise_spec; auto.
+  - assert (Hq : forall a a', agree univ a a' ->
+        Bool.eqb (u a) (existsb (fun c => cube_holds c a) cubes) =
+        Bool.eqb (u a') (existsb (fun c => cube_holds c a') cubes)).
+    { intros a a' Ha. f_equal; [apply Hu; auto|].
+      clear - Hc Ha. induction cubes as [|c r IH]; cbn [existsb]; auto.
+      f_equal.
+      * apply (cube_holds_agree univ); auto. apply (Hc c); left; auto.
+      * apply IH. intros; apply Hc; right; auto. }
+    pose proof (proj1 (forallb_all_asgs univ _ Hq) H2) as H2'.
+    intro a. specialize (H2' a). apply eqb_prop in H2'. auto.
+  - intros c Hin. destruct (Hc c Hin) as (A & _ & B & _). split; auto.
+  - intros c b Hin Hb. destruct (Hc c Hin) as (_ & A & _). auto.
+  - intros c b Hin Hb. destruct (Hc c Hin) as (_ & _ & _ & A). auto.
+Qed.
+
+Lemma concat_opt_some {A} (l : list (option (list A))) (ls : list (list A)) :
+  l = map Some ls -> concat_opt l = Some (List.concat ls).
+Proof.
+  intros ->. induction ls; cbn [map concat_opt List.concat]; auto. rewrite IHls. reflexivity.
+Qed.
+
+Lemma bitfields_value t c : wf_tbl t -> cube_ok (all_bits t) c ->
+  bitfields_to_int_iter t c =
+  Some (take_product (int_sets_spec t c) (bool_model t c)).
+Proof.
+  intros [ND Hwfh] [NDc Hkeys]. unfold bitfields_to_int_iter.
+  assert (Hs : subset bit_eqb (map fst c) (all_bits t) = true)
+    by (apply (subset_spec bit_eqb bit_eqb_spec); auto).
+  rewrite Hs. cbn [negb]. rewrite int_sets_eq by auto. reflexivity.
+Qed.
+
+Lemma bit_table_in vars t bs b : bit_table vars t = Some bs -> In b bs ->
+  exists x d, In x vars /\ tlookup x t = Some d /\ In b (bitnames x d).
+Proof.
+  revert bs; induction vars as [|x r IH]; intros bs E Hb; cbn [bit_table] in E.
+  - inversion E; subst. destruct Hb.
+  - destruct (tlookup x t) as [d|] eqn:Hl; [|discriminate].
+    destruct (bit_table r t) as [rest|] eqn:Er; [|discriminate].
+    inversion E; subst. apply (set_union_in bit_eqb bit_eqb_spec) in Hb.
+    destruct Hb as [Hb|Hb].
+    + exists x, d. cbn; auto.
+    + destruct (IH rest eq_refl Hb) as (y & d' & Hy & H1 & H2). exists y, d'. cbn; auto.
+Qed.
+
+(* ==== Context.pick_iter ========================================================================
+   dd.pick_iter enters as the list [cubes] it returned for (u, care bits); its
+   contract is the hypothesis [Hct].  It is discharged by a concrete instance
+   below ([canonical_cubes_contract]) and is evaluated on the real cubes of both
+   back ends on every run (cube_contract_b). *)
+Section PickIter.
+Variables (t : tbl) (u : pred) (care_vars : option (list ident))
+          (cb : option (list bit)) (cubes : list cube).
+Hypothesis Hwf : wf_tbl t.
+Hypothesis Hu : uses_only (all_bits t) u.
+Hypothesis Hcare : care_bits_of t care_vars = Some cb.
+Hypothesis Hct : contract (all_bits t) u cb cubes.
+
+Let L (c : cube) := take_product (int_sets_spec t c) (bool_model t c).
+
+Lemma pick_iter_value :
+  ctx_pick_iter t u care_vars cubes = Some (List.concat (map L cubes)).
+Proof.
+  destruct (ctx_support_bits t u) as (s & Es & NDs & Hs).
+  unfold ctx_pick_iter. rewrite Es.
+  rewrite (concat_opt_some _ (map L cubes)).
+  2:{ rewrite map_map. apply map_ext_in. intros c Hc. apply bitfields_value; auto.
+      apply (ct_ok _ _ _ _ Hct); auto. }
+  set (vrs := set_union String.eqb s match care_vars with Some c => c | None => [] end).
+  assert (Hall : forallb (fun d => subset String.eqb (map fst d) vrs)
+                   (List.concat (map L cubes)) = true).
+  { apply forallb_forall. intros d Hd. apply in_concat in Hd.
+    destruct Hd as (Lc & HLc & Hd). apply in_map_iff in HLc. destruct HLc as (c & <- & Hc).
+    apply (subset_spec String.eqb string_eqb_spec'). intros y Hy.
+    destruct (yielded_dict_ok t c d Hwf Hd) as (_ & _ & Hk).
+    destruct (Hk y Hy) as (b & Hb & Eb).
+    unfold vrs. apply (set_union_in String.eqb string_eqb_spec').
+    destruct (ct_keys _ _ _ _ Hct c b Hc Hb) as [Hsup|Hcb].
+    - left. apply Hs. eauto.
+    - unfold care_bits_of in Hcare. destruct care_vars as [[|c0 cr]|].
+      + inversion Hcare; subst. destruct Hcb.
+      + destruct (bit_table (c0 :: cr) t) as [bits|] eqn:Eb'; [|discriminate].
+        inversion Hcare; subst.
+        destruct (bit_table_in _ _ _ _ Eb' Hcb) as (x & dx & Hx & _ & Hbn).
+        apply in_bitnames in Hbn. right. destruct Hbn as [Hbx _]. rewrite Hbx. exact Hx.
+      + inversion Hcare; subst. left. apply Hs. eauto. }
+  rewrite Hall. reflexivity.
+Qed.
+
+Lemma in_yield d :
+  In d (List.concat (map L cubes)) <-> exists c, In c cubes /\ In d (L c).
+Proof.
+  rewrite in_concat. split.
+  - intros (Lc & H1 & H2). apply in_map_iff in H1. destruct H1 as (c & <- & Hc). eauto.
+  - intros (c & Hc & Hd). exists (L c). split; auto. apply in_map_iff. eauto.
+Qed.
+
+Lemma cube_of_yield c d f : In c cubes -> In d (L c) -> in_range t f -> extends f d ->
+  cube_holds c (encode t f) = true.
+Proof.
+  intros Hc Hd Hf He.
+  destruct (bitfields_spec t c Hwf (ct_ok _ _ _ _ Hct c Hc)) as (L' & E & _ & HA & _).
+  rewrite bitfields_value in E by (auto; apply (ct_ok _ _ _ _ Hct); auto).
+  inversion E; subst L'. apply HA; eauto.
+Qed.
+
+(* every total extension of a yielded dictionary satisfies the predicate *)
+Theorem pick_iter_sound d f : In d (List.concat (map L cubes)) ->
+  in_range t f -> extends f d -> sem t u f = true.
+Proof.
+  intros Hd Hf He. apply in_yield in Hd. destruct Hd as (c & Hc & Hd).
+  unfold sem. rewrite (ct_cover _ _ _ _ Hct). apply existsb_exists.
+  exists c. split; auto. eapply cube_of_yield; eauto.
+Qed.
+
+(* every satisfying assignment extends a yielded dictionary *)
+Theorem pick_iter_complete f : in_range t f -> sem t u f = true ->
+  exists d, In d (List.concat (map L cubes)) /\ extends f d.
+Proof.
+  intros Hf Hs. unfold sem in Hs. rewrite (ct_cover _ _ _ _ Hct) in Hs.
+  apply existsb_exists in Hs. destruct Hs as (c & Hc & Hh).
+  destruct (bitfields_spec t c Hwf (ct_ok _ _ _ _ Hct c Hc)) as (L' & E & _ & HA & _).
+  rewrite bitfields_value in E by (auto; apply (ct_ok _ _ _ _ Hct); auto).
+  inversion E; subst L'. destruct (proj2 (HA f Hf) Hh) as (d & Hd & He).
+  exists d. split; auto. apply in_yield. eauto.
+Qed.
+
+(* ... exactly one: two yielded dictionaries with a common extension are equal *)
+Theorem pick_iter_unique f d1 d2 : in_range t f ->
+  In d1 (List.concat (map L cubes)) -> In d2 (List.concat (map L cubes)) ->
+  extends f d1 -> extends f d2 -> d1 = d2.
+Proof.
+  intros Hf H1 H2 E1 E2. apply in_yield in H1. apply in_yield in H2.
+  destruct H1 as (c1 & Hc1 & Hd1). destruct H2 as (c2 & Hc2 & Hd2).
+  pose proof (cube_of_yield c1 d1 f Hc1 Hd1 Hf E1) as Hh1.
+  pose proof (cube_of_yield c2 d2 f Hc2 Hd2 Hf E2) as Hh2.
+  destruct (ForallOrdPairs_In (ct_disjoint _ _ _ _ Hct) c1 c2 Hc1 Hc2) as [Ec|[Hx|Hx]].
+  - subst c2.
+    destruct (bitfields_spec t c1 Hwf (ct_ok _ _ _ _ Hct c1 Hc1)) as (L' & E & _ & _ & HB).
+    rewrite bitfields_value in E by (auto; apply (ct_ok _ _ _ _ Hct); auto).
+    inversion E; subst L'. eapply HB; eauto.
+  - exfalso. eapply cubes_conflict_spec; eauto.
+  - exfalso. eapply cubes_conflict_spec; eauto.
+Qed.
+
+(* the yielded dictionaries are pairwise distinct *)
+Theorem pick_iter_nodup : NoDup (List.concat (map L cubes)).
+Proof.
+  pose proof (ct_disjoint _ _ _ _ Hct) as Hd. pose proof (ct_ok _ _ _ _ Hct) as Hok.
+  clear Hct Hcare. induction cubes as [|c r IH]; cbn [map List.concat]; [constructor|].
+  inversion Hd as [|? ? Hc Hr]; subst. apply nodup_app.
+  - destruct (bitfields_spec t c Hwf (Hok c (or_introl eq_refl))) as (L' & E & ND & _).
+    rewrite bitfields_value in E by (auto; apply Hok; left; auto).
+    inversion E; subst L'. exact ND.
+  - apply IH; auto. intros; apply Hok; right; auto.
+  - intros d Hd1 Hd2. apply in_concat in Hd2. destruct Hd2 as (Lc & HLc & Hd2).
+    apply in_map_iff in HLc. destruct HLc as (c' & <- & Hc').
+    destruct (yielded_dict_ok t c d Hwf Hd1) as (NDd & Hv & _).
+    destruct (extension_exists t d Hwf NDd Hv) as (f & Hf & He).
+    rewrite Forall_forall in Hc. specialize (Hc c' Hc').
+    assert (H1 : cube_holds c (encode t f) = true).
+    { destruct (bitfields_spec t c Hwf (Hok c (or_introl eq_refl))) as (L' & E & _ & HA & _).
+      rewrite bitfields_value in E by (auto; apply Hok; left; auto).
+      inversion E; subst L'. apply HA; eauto. }
+    assert (H2 : cube_holds c' (encode t f) = true).
+    { destruct (bitfields_spec t c' Hwf (Hok c' (or_intror Hc'))) as (L' & E & _ & HA & _).
+      rewrite bitfields_value in E by (auto; apply Hok; right; auto).
+      inversion E; subst L'. apply HA; eauto. }
+    eapply cubes_conflict_spec; eauto.
+Qed.
+
+(* dictionaries hold representable values of declared variables, once each *)
+Theorem pick_iter_values d : In d (List.concat (map L cubes)) ->
+  NoDup (map fst d) /\
+  forall y w, In (y, w) d -> exists dy, In (y, dy) t /\ val_in_range dy w = true.
+Proof.
+  intro Hd. apply in_yield in Hd. destruct Hd as (c & Hc & Hd).
+  destruct (yielded_dict_ok t c d Hwf Hd) as (A & B & _). auto.
+Qed.
+
+End PickIter.
+
+(* ---- totality of the yielded dictionaries when care_vars covers the support --------------------- *)
+Lemma yielded_keys_complete t c d b : wf_tbl t -> cube_ok (all_bits t) c ->
+  In d (take_product (int_sets_spec t c) (bool_model t c)) ->
+  In b (map fst c) -> In (fst b) (map fst d).
+Proof.
+  intros Hwf [NDc Hkeys] Hd Hb. apply take_product_rel in Hd.
+  apply (prod_rel_keys _ _ _ Hd).
+  destruct (declared_bit_lookup t b Hwf (Hkeys b Hb)) as (dx & Hl & Hbn).
+  destruct dx as [|h].
+  - left. apply in_bitnames in Hbn. destruct Hbn as [_ Hi]. destruct b as [x i].
+    cbn [fst snd] in *. subst i.
+    destruct (dict_get bit_eqb (x, 0%nat) c) as [bv|] eqn:Ed.
+    + apply in_map_iff. exists (x, VB bv). split; auto.
+      apply bool_model_in. exists bv. split; auto. apply tlookup_in; auto.
+    + apply (dict_get_none bit_eqb bit_eqb_spec) in Ed. contradiction.
+  - right. apply in_map_iff. eexists (fst b, _). split; [reflexivity|].
+    apply int_sets_spec_in. exists h. split; [apply tlookup_in; auto|]. split; auto.
+    unfold touched. apply existsb_exists. exists b. split; auto.
+    apply (mem_spec bit_eqb bit_eqb_spec). auto.
+Qed.
+
+Lemma bit_table_declared vars t bs : bit_table vars t = Some bs ->
+  forall x, In x vars -> exists d, tlookup x t = Some d.
+Proof.
+  revert bs; induction vars as [|x r IH]; intros bs E y Hy; [destruct Hy|].
+  cbn [bit_table] in E.
+  destruct (tlookup x t) as [d|] eqn:Hl; [|discriminate].
+  destruct (bit_table r t) as [rest|] eqn:Er; [|discriminate].
+  destruct Hy as [<-|Hy]; eauto.
+Qed.
+
+Section PickIterTotal.
+Variables (t : tbl) (u : pred) (care_vars : option (list ident))
+          (cb : option (list bit)) (cubes : list cube) (s : list ident).
+Hypothesis Hwf : wf_tbl t.
+Hypothesis Hu : uses_only (all_bits t) u.
+Hypothesis Hcare : care_bits_of t care_vars = Some cb.
+Hypothesis Hct : contract (all_bits t) u cb cubes.
+Hypothesis Hs : ctx_support t u = Some s.
+(* care_vars is None or covers the support *)
+Hypothesis Hcover : match care_vars with
+                    | None => True
+                    | Some cv => forall x, In x s -> In x cv
+                    end.
+
+(* with care_vars None or a superset of the support, every yielded dictionary
+   assigns exactly the variables of support \/ care_vars *)
+Theorem pick_iter_total d :
+  In d (List.concat (map (fun c => take_product (int_sets_spec t c) (bool_model t c)) cubes)) ->
+  forall y, In y (map fst d) <->
+            In y s \/ In y (match care_vars with Some cv => cv | None => [] end).
+Proof.
+  intros Hd y.
+  destruct (ctx_support_bits t u) as (s' & Es & _ & Hs'). rewrite Hs in Es.
+  inversion Es; subst s'. clear Es.
+  apply in_concat in Hd. destruct Hd as (Lc & HLc & Hd).
+  apply in_map_iff in HLc. destruct HLc as (c & <- & Hc).
+  pose proof (ct_ok _ _ _ _ Hct c Hc) as Hok.
+  split.
+  - intro Hy. destruct (yielded_dict_ok t c d Hwf Hd) as (_ & _ & Hk).
+    destruct (Hk y Hy) as (b & Hb & Eb).
+    destruct (ct_keys _ _ _ _ Hct c b Hc Hb) as [Hsup|Hcb].
+    + left. apply Hs'. eauto.
+    + unfold care_bits_of in Hcare. destruct care_vars as [[|c0 cr]|].
+      * inversion Hcare; subst. destruct Hcb.
+      * destruct (bit_table (c0 :: cr) t) as [bits|] eqn:Eb'; [|discriminate].
+        inversion Hcare; subst.
+        destruct (bit_table_in _ _ _ _ Eb' Hcb) as (x & dx & Hx & _ & Hbn).
+        apply in_bitnames in Hbn. right. destruct Hbn as [Hbx _]. rewrite Hbx. exact Hx.
+      * inversion Hcare; subst. left. apply Hs'. eauto.
+  - intro Hy.
+    assert (Hbit : exists b, fst b = y /\
+       In b (match cb with Some l => l | None => bsupport (all_bits t) u end)).
+    { unfold care_bits_of in Hcare. destruct care_vars as [[|c0 cr]|].
+      - inversion Hcare; subst. destruct Hy as [Hy|[]]. destruct (Hcover y Hy).
+      - destruct (bit_table (c0 :: cr) t) as [bits|] eqn:Eb'; [|discriminate].
+        inversion Hcare; subst.
+        assert (Hyc : In y (c0 :: cr)) by (destruct Hy; auto).
+        pose proof (bit_table_declared _ _ _ Eb') as Hdecl.
+        destruct (bit_table_spec (c0 :: cr) t Hdecl) as (bs & E & _ & Hin).
+        rewrite Eb' in E. inversion E; subst bs.
+        destruct (Hdecl y Hyc) as (dy & Hl).
+        exists (y, 0%nat). split; auto. apply Hin. exists y, dy. split; auto. split; auto.
+        apply in_bitnames. cbn [fst snd]. split; auto. destruct dy as [|h]; auto.
+        destruct Hwf as [_ Hwfh]. destruct (Hwfh y h (tlookup_in _ _ _ Hl)) as [H1 _].
+        unfold wnat. lia.
+      - inversion Hcare; subst. destruct Hy as [Hy|[]].
+        apply Hs' in Hy. destruct Hy as (b & Hb & Eb). eauto. }
+    destruct Hbit as (b & Eb & Hb). rewrite <- Eb.
+    apply (yielded_keys_complete t c d b); auto.
+    apply (ct_care _ _ _ _ Hct c b Hc Hb).
+Qed.
+End PickIterTotal.
+
+(* ---- the contract is satisfiable: the list of all models over the declared bits,
+        as total cubes, is a valid answer of dd.pick_iter for every predicate --------------------- *)
+Definition cube_of (bits : list bit) (a : bitasg) : cube := map (fun b => (b, a b)) bits.
+
+Definition canonical_cubes (univ : list bit) (u : pred) : list cube :=
+  map (cube_of univ) (filter u (all_asgs univ)).
+
+Example canonical_cubes_contract :
+  let t : tbl := [("x"%string, DInt (mkHint 2 false (0, 2))); ("b"%string, DBool)] in
+  let u : pred := fun a => a ("x"%string, 0%nat) || a ("b"%string, 0%nat) in
+  uses_only (all_bits t) u /\ wf_tbl t /\
+  contract (all_bits t) u (Some (all_bits t)) (canonical_cubes (all_bits t) u) /\
+  care_bits_of t (Some ["x"%string; "b"%string]) = Some (Some (all_bits t)).
+Proof.
+  cbv zeta.
+  set (t := [("x"%string, DInt (mkHint 2 false (0, 2))); ("b"%string, DBool)]).
+  set (u := fun a : bitasg => a ("x"%string, 0%nat) || a ("b"%string, 0%nat)).
+  assert (Hu : uses_only (all_bits t) u).
+  { intros a a' Ha. unfold u.
+    rewrite (Ha ("x"%string, 0%nat)), (Ha ("b"%string, 0%nat));
+      [reflexivity| |]; vm_compute; auto 6. }
+  split; auto. split; [|split].
+  - split.
+    + cbn. repeat constructor; cbn; intuition; try discriminate.
+    + intros x h [E|[E|[]]]; inversion E; subst. repeat split; cbn; try lia; auto.
+  - apply contract_of_bool; [exact Hu|]. vm_compute. reflexivity.
+  - vm_compute. reflexivity.
 Qed.
